@@ -428,6 +428,8 @@ class Interp:
             raise Unsupported("for/else on a symbolic iterable")
         seq = V.as_symseq(self, it)
         n = seq.length
+        if _is_zero(n):
+            return   # nothing to iterate over (e.g. an iterator that an earlier traversal has exhausted)
         spec = self.loop_specs.get(key)
         if spec is None:
             target_list = _map_loop_target(st)
@@ -899,10 +901,11 @@ class Interp:
                 return V.finish_comp(self, out, kind)
             if kind == "set" and hasattr(it, "sym_setcomp"):
                 return it.sym_setcomp(self, e, g, frame)
-            if g.ifs:
-                seq = V.as_symseq(self, it)
-                return V.filtered_comp(self, e, g, seq, frame, kind)
             seq = V.as_symseq(self, it)
+            if _is_zero(seq.length):
+                return V.finish_comp(self, [], kind)   # e.g. over an exhausted iterator
+            if g.ifs:
+                return V.filtered_comp(self, e, g, seq, frame, kind)
             return V.symbolic_comp(self, e, g, seq, frame, kind)
         # nested generators: only over concrete outer iterables
         out = []
@@ -950,6 +953,15 @@ class Interp:
 
     def e_Starred(self, e, frame):
         raise Unsupported("starred expression")
+
+
+def _is_zero(n):
+    if isinstance(n, int):
+        return n == 0
+    if isinstance(n, z3.ExprRef):
+        n = z3.simplify(n)
+        return z3.is_int_value(n) and n.as_long() == 0
+    return False
 
 
 def _short(key):
